@@ -253,3 +253,164 @@ theorem strictDesc_last_lt_head (a b : K) (l : List K) (hs : StrictDesc (a :: b 
   exact List.rel_of_pairwise_cons hp hmem
 
 end Synphot
+
+namespace Synphot
+variable {K : Type} [Field K] [LinearOrder K] [IsStrictOrderedRing K]
+
+/-- appending a knot beyond the last one does not change the interpolant on the original range -/
+theorem interpAsc_append (w2 y2 : K) :
+    ∀ (xs ys : List K), xs.length = ys.length → 2 ≤ xs.length → ∀ x, x ≤ xs.getLastD 0 →
+      interpAsc (xs ++ [w2]) (ys ++ [y2]) x = interpAsc xs ys x := by
+  intro xs
+  induction xs with
+  | nil => intro ys _ h2; simp at h2
+  | cons x0 xs ih =>
+    intro ys hl h2 x hx
+    cases ys with
+    | nil => simp at hl
+    | cons y0 ys =>
+      cases xs with
+      | nil => simp at h2
+      | cons x1 xs =>
+        cases ys with
+        | nil => simp at hl
+        | cons y1 ys =>
+          simp only [List.cons_append, interpAsc]
+          by_cases hc : x ≤ x1
+          · simp [hc]
+          · simp only [hc, if_false]
+            cases xs with
+            | nil =>
+              -- x ≤ last = x1 contradicts hc
+              simp [List.getLastD] at hx
+              exact absurd hx hc
+            | cons x2 xs =>
+              have := ih (y1 :: ys) (by simpa using hl) (by simp) x (by simpa [List.getLastD] using hx)
+              simpa using this
+
+/-- prepending a knot below the first one does not change the interpolant on the original range
+(at the first knot both chords give the first value) -/
+theorem interpAsc_prepend (w1 y1' x0 x1 y0 y1 : K) (xs ys : List K) (hw : w1 < x0) (h01 : x0 < x1)
+    (x : K) (hx : x0 ≤ x) :
+    interpAsc (w1 :: x0 :: x1 :: xs) (y1' :: y0 :: y1 :: ys) x = interpAsc (x0 :: x1 :: xs) (y0 :: y1 :: ys) x := by
+  by_cases hc : x ≤ x0
+  · have hxe : x = x0 := le_antisymm hc hx
+    subst hxe
+    rw [interpAsc_head x x1 y0 y1 xs ys h01]
+    simp only [interpAsc, if_pos (le_refl x)]
+    have : x - w1 ≠ 0 := ne_of_gt (sub_pos.mpr hw)
+    field_simp
+    ring
+  · simp only [interpAsc, if_neg hc]
+
+/-- past the first interval the interpolant is the interpolant of the tail table -/
+theorem interpAsc_tail (x0 x1 y0 y1 : K) (xs ys : List K) (h01 : x0 < x1) (hs : StrictAsc (x1 :: xs))
+    (hl : xs.length = ys.length) (x : K) (hx : x1 ≤ x) :
+    interpAsc (x0 :: x1 :: xs) (y0 :: y1 :: ys) x = interpAsc (x1 :: xs) (y1 :: ys) x := by
+  by_cases hc : x ≤ x1
+  · have hxe : x = x1 := le_antisymm hc hx
+    subst hxe
+    simp only [interpAsc, if_pos (le_refl x)]
+    have hne : x - x0 ≠ 0 := ne_of_gt (sub_pos.mpr h01)
+    have hv : interpAsc (x :: xs) (y1 :: ys) x = y1 := by
+      cases xs with
+      | nil => cases ys <;> simp [interpAsc]
+      | cons x2 xs =>
+        cases ys with
+        | nil => simp at hl
+        | cons y2 ys => exact interpAsc_head x x2 y1 y2 xs ys hs.1
+    rw [hv]; field_simp; ring
+  · simp only [interpAsc, if_neg hc]
+
+/-- at its own knots the interpolant returns the tabulated values -/
+theorem interpAsc_at_knots :
+    ∀ (xs ys : List K), StrictAsc xs → xs.length = ys.length → xs.map (interpAsc xs ys) = ys := by
+  intro xs
+  induction xs with
+  | nil => intro ys _ hl; cases ys <;> simp_all
+  | cons x0 xs ih =>
+    intro ys hs hl
+    cases ys with
+    | nil => simp at hl
+    | cons y0 ys =>
+      cases xs with
+      | nil => cases ys <;> simp_all [interpAsc]
+      | cons x1 xs =>
+        cases ys with
+        | nil => simp at hl
+        | cons y1 ys =>
+          obtain ⟨h01, hs'⟩ := hs
+          have hl' : xs.length = ys.length := by simpa using hl
+          have ihx := ih (y1 :: ys) hs' (by simpa using hl)
+          rw [List.map_cons, interpAsc_head x0 x1 y0 y1 xs ys h01]
+          congr 1
+          have hm : (x1 :: xs).map (interpAsc (x0 :: x1 :: xs) (y0 :: y1 :: ys)) =
+              (x1 :: xs).map (interpAsc (x1 :: xs) (y1 :: ys)) := by
+            apply List.map_congr_left
+            intro x hx
+            exact interpAsc_tail x0 x1 y0 y1 xs ys h01 hs' hl' x (strictAsc_head_le_mem x1 xs hs' x hx)
+          rw [hm, ihx]
+
+theorem isDesc_false_of_asc (l : List K) (hs : StrictAsc l) : isDesc l = false := by
+  unfold isDesc
+  cases hl : l with
+  | nil => rfl
+  | cons a t =>
+    have hmem : (a :: t).getLast (List.cons_ne_nil _ _) ∈ (a :: t) := List.getLast_mem _
+    have hle := strictAsc_head_le_mem a t (hl ▸ hs) _ hmem
+    have hlast : (a :: t).getLast? = some ((a :: t).getLast (List.cons_ne_nil _ _)) :=
+      List.getLast?_eq_getLast_of_ne_nil _
+    simp only [List.head?_cons, hlast]
+    exact decide_eq_false (not_lt.mpr hle)
+
+theorem clipNeg_id (k : Bool) (y : List K) (h : k = true ∨ ∀ v ∈ y, 0 ≤ v) : (clipNeg k y).1 = y := by
+  unfold clipNeg
+  by_cases hk : k = true
+  · simp [hk]
+  · simp only [hk, Bool.false_eq_true, if_false]
+    rcases h with h | h
+    · exact absurd h hk
+    · conv_rhs => rw [← List.map_id y]
+      apply List.map_congr_left
+      intro v hv
+      simp [not_lt.mpr (h v hv)]
+
+theorem strictAsc_append_one (l : List K) (w : K) (hs : StrictAsc l) (h : ∀ x ∈ l.getLast?, x < w) :
+    StrictAsc (l ++ [w]) := by
+  rw [strictAsc_iff_chain] at *
+  rw [List.isChain_append]
+  refine ⟨hs, by simp, ?_⟩
+  intro x hx y hy
+  simp at hy; subst hy; exact h x hx
+
+theorem strictAsc_cons_one (l : List K) (w : K) (hs : StrictAsc l) (h : ∀ x ∈ l.head?, w < x) :
+    StrictAsc (w :: l) := by
+  rw [strictAsc_iff_chain] at *
+  rw [List.isChain_cons]
+  exact ⟨h, hs⟩
+
+theorem dropLast_last_lt (a b : K) (l : List K) (hs : StrictAsc (a :: b :: l)) :
+    ((a :: b :: l).dropLast).getLastD a < (a :: b :: l).getLastD a ∧
+      a ≤ ((a :: b :: l).dropLast).getLastD a := by
+  have hne : (a :: b :: l) ≠ [] := by simp
+  have hd := List.dropLast_append_getLast hne
+  have hch := (strictAsc_iff_chain (a :: b :: l)).mp hs
+  rw [← hd, List.isChain_append] at hch
+  obtain ⟨_, _, h3⟩ := hch
+  have hdl : (a :: b :: l).dropLast = a :: (b :: l).dropLast := by simp [List.dropLast]
+  have hne2 : (a :: b :: l).dropLast ≠ [] := by rw [hdl]; simp
+  have hl1 : ((a :: b :: l).dropLast).getLastD a = ((a :: b :: l).dropLast).getLast hne2 := by
+    rw [List.getLastD_eq_getLast?, List.getLast?_eq_getLast_of_ne_nil hne2]; rfl
+  have hl2 : (a :: b :: l).getLastD a = (a :: b :: l).getLast hne := by
+    rw [List.getLastD_eq_getLast?, List.getLast?_eq_getLast_of_ne_nil hne]; rfl
+  constructor
+  · rw [hl1, hl2]
+    apply h3
+    · rw [List.getLast?_eq_getLast_of_ne_nil hne2]; rfl
+    · simp
+  · rw [hl1]
+    have hmem : ((a :: b :: l).dropLast).getLast hne2 ∈ (a :: b :: l) :=
+      List.dropLast_subset _ (List.getLast_mem hne2)
+    exact strictAsc_head_le_mem a (b :: l) hs _ hmem
+
+end Synphot
